@@ -440,3 +440,9 @@ Proof.
   unfold build. destruct (pipeline d) as [ns'|c] eqn:P; [|discriminate].
   intro E. inversion E; subst. exact (proj2 (accept_sound _ _ P)).
 Qed.
+
+(** the same, on documents as written *)
+Theorem written_never_internal doc : verify_and_build doc <> Reject Internal.
+Proof. exact (build_never_internal (yaml_load doc)). Qed.
+Theorem written_no_drop doc ns : verify_and_build doc = Accept ns -> ns = step_names (yaml_load doc).
+Proof. exact (accepted_steps (yaml_load doc) ns). Qed.
